@@ -670,10 +670,17 @@ void GridSequence::setAnisotropicRefinement(TypeDepth type, int min_growth, int 
     std::vector<int> weights;
     estimateAnisotropicCoefficients(type, output, weights);
 
+    // if the limits restrict every dimension and all admissible indexes are present, no growth is possible
+    auto limits_exhausted = [&]()->bool{
+        MultiIndexSet all_indexes = points;
+        if (!needed.empty()) all_indexes += needed;
+        return MultiIndexManipulations::isLimitsBoxFull(level_limits, all_indexes);
+    };
+
     int level = 0;
     do{
         updateGrid(++level, type, weights, level_limits);
-    }while(getNumNeeded() < min_growth);
+    }while((getNumNeeded() < min_growth) && !limits_exhausted());
 }
 void GridSequence::setSurplusRefinement(double tolerance, int output, const std::vector<int> &level_limits){
     clearRefinement();
